@@ -187,7 +187,47 @@ func nhScenarioSMC(rec *nhRec, tid int, seed int64, smType string, store string,
 					}
 				}
 				r.hmu[hid-1].Unlock()
-			case x < 90:
+			case x < 86:
+				// a running follower falls behind a compacted log (cut off while the others write and
+				// compact) and is sent a snapshot after the heal: its state machine recovers from a
+				// snapshot at run time while clients keep reading from it
+				l := r.leaderHost()
+				if l == 0 || l == hid || nh == nil {
+					break
+				}
+				lnh := r.nhOf(l)
+				if lnh == nil {
+					break
+				}
+				c.net.mu.Lock()
+				for _, o := range c.hosts {
+					if o.id != hid {
+						c.net.cut[[2]string{c.host(hid).addr, o.addr}] = true
+						c.net.cut[[2]string{o.addr, c.host(hid).addr}] = true
+					}
+				}
+				c.net.mu.Unlock()
+				c.rec.emit("Fault", nhEv{"what": "lag", "h": hid})
+				time.Sleep(time.Duration(40+rng.Intn(60)) * time.Millisecond)
+				func() {
+					defer func() { _ = recover() }()
+					for _, sh := range c.shards {
+						_, _ = lnh.RequestSnapshot(sh, SnapshotOption{OverrideCompactionOverhead: true, CompactionOverhead: 0}, 500*time.Millisecond)
+					}
+				}()
+				time.Sleep(time.Duration(60+rng.Intn(60)) * time.Millisecond)
+				c.net.mu.Lock()
+				c.net.cut = map[[2]string]bool{}
+				c.net.mu.Unlock()
+				end := time.Now().Add(time.Duration(120+rng.Intn(80)) * time.Millisecond)
+				for time.Now().Before(end) && atomic.LoadInt32(&r.stop) == 0 {
+					func() {
+						defer func() { _ = recover() }()
+						_, _ = nh.StaleRead(c.shards[rng.Intn(2)], nhQuery{Op: "r", K: "a"})
+					}()
+					time.Sleep(time.Duration(100+rng.Intn(400)) * time.Microsecond)
+				}
+			case x < 92:
 				// a host loses power and comes back later: it is behind a compacted log and is
 				// streamed a snapshot
 				r.crash(hid, false, rng)
